@@ -7,6 +7,7 @@ mod oplog;
 mod node;
 mod disk;
 mod cluster;
+mod sched;
 
 fn main() {
     let args: Vec<String> = std::env::args().collect();
@@ -22,6 +23,7 @@ fn main() {
         "node" => node::run(&args[2], &workdir),
         "disk" => disk::run(&args[2], &workdir),
         "cluster" => cluster::run(&args[2], &workdir),
+        "sched" => sched::run(&args[2], &workdir),
         d => {
             eprintln!("unknown driver {}", d);
             std::process::exit(2);
